@@ -29,7 +29,13 @@ Definition is_alpha_c (c : N) : bool :=
   ((65 <=? c) && (c <=? 90)) || ((97 <=? c) && (c <=? 122)).
 Definition sym_ws (x : sym) : bool := match x with Ch c => is_ws_c c | Dg _ => false end.
 Definition sym_alpha (x : sym) : bool := match x with Ch c => is_alpha_c c | Dg _ => false end.
-Definition sym_is (x : sym) (c : N) : bool := sym_byte x =? c.
+(* is [x] the character [c]?  (written so that a digit symbol with an unknown value is
+   decided without arithmetic whenever [c] is not a digit character) *)
+Definition sym_is (x : sym) (c : N) : bool :=
+  match x with
+  | Ch c' => c' =? c
+  | Dg v => (48 <=? c) && (c <=? 57) && (v =? c - 48)
+  end.
 
 Fixpoint trim_ws (s : list sym) : list sym :=
   match s with
